@@ -56,6 +56,18 @@ def sym(x):
     return x[1] if isinstance(x, tuple) and x[0] == "sym" else None
 
 
+SIMPLE = re.compile(r"[A-Za-z0-9~!@$%^&*_+=<>.?/-]+$")
+
+
+def unparse(x):
+    """s-expression back to text (symbols that need it are quoted)"""
+    if isinstance(x, list):
+        return "(" + " ".join(unparse(y) for y in x) + ")"
+    if x[0] == "str":
+        return '"' + x[1].replace('"', '""') + '"'
+    return x[1] if SIMPLE.match(x[1]) else f"|{x[1]}|"
+
+
 NUM = re.compile(r"[0-9]+(\.[0-9]+)?$")
 BUILTIN = {"true": "tru", "false": "fls", "not": "not", "and": "and", "or": "or", "xor": "xor", "=>": "imp", "=": "eq",
            "ite": "ite", "distinct": "distinct", "+": "plus", "*": "times", "-": "minus", "/": "rdiv", "div": "idiv",
